@@ -335,6 +335,9 @@ def one_run(tape: Tape, stub: bool) -> dict:
         except BudgetExceeded as e:
             V.append({"clause": "C18.I7-no-termination", "site": "progress", "msg": f"run did not finish within the liveness budget: {e} ({desc})"})
             return _pack(V, desc, probes, world, case, None, stub)
+        if isinstance(out.error, BudgetExceeded):
+            V.append({"clause": "C18.I7-no-termination", "site": "progress", "msg": f"run did not finish within the liveness budget: {out.error} ({desc})"})
+            return _pack(V, desc, probes, world, case, None, stub)
         finished = out.error is None
         if out.error is not None and out.progress_calls == 0:
             # died before the first unit of work: not a statement about jump stepping (C14/C21 judge run() failures)
